@@ -102,6 +102,35 @@ func (cx *Ctx) InstallStdlib() {
 			k(st, TupleV{[]Value{Scalar{c.Elem(Add(buf.Off, off))}, errV(ErrNil)}})
 		}
 	}
+	in["(*bytes.Buffer).Read"] = func(fx *FnExec, fr *Frame, call *ssa.CallCommon, args []Value, st *State, site string, k func(*State, Value)) {
+		b, buf, off := fx.bufParts(fr, st, call, args[0], site)
+		if b == nil {
+			return
+		}
+		p := args[1].(SliceV)
+		avail := Sub(buf.Len, off)
+		empty := Eq(avail, BV64(0))
+		// empty buffer: (0, io.EOF) unless len(p) == 0
+		s1 := st.Clone()
+		s1.Assume(empty)
+		if !s1.Dead {
+			k(s1, TupleV{[]Value{Scalar{BV64(0)}, ErrV{Ite(Eq(p.Len, BV64(0)), BVC(8, ErrNil), BVC(8, ErrEOF))}}})
+		}
+		st.Assume(Not(empty))
+		if !st.Dead {
+			n := Ite(ULt(avail, p.Len), avail, p.Len)
+			if p.Obj != nil {
+				a := fx.arrayOf(st, p.Obj, p.Path)
+				if fx.OnStore != nil {
+					fx.OnStore(fx, st, p.Obj, p.Path, site)
+				}
+				st.Heap[p.Obj] = fx.writePath(fx.heapGet(st, p.Obj), p.Path, ArrV{EW: a.EW, Len: a.Len, C: CopyC(a.C, p.Off, fx.sliceContent(st, buf), Add(buf.Off, off), n)})
+			}
+			fx.setBufOff(st, b, Add(off, n))
+			k(st, TupleV{[]Value{Scalar{n}, errV(ErrNil)}})
+		}
+	}
+	in["(*bytes.Reader).Read"] = in["(*bytes.Buffer).Read"]
 	in["(*bytes.Buffer).Write"] = func(fx *FnExec, fr *Frame, call *ssa.CallCommon, args []Value, st *State, site string, k func(*State, Value)) {
 		b, _, _ := fx.bufParts(fr, st, call, args[0], site)
 		if b == nil {
@@ -196,6 +225,7 @@ func (cx *Ctx) InstallStdlib() {
 	// ---- encoding/hex ----
 	in["encoding/hex.EncodeToString"] = func(fx *FnExec, fr *Frame, call *ssa.CallCommon, args []Value, st *State, site string, k func(*State, Value)) {
 		s := args[0].(SliceV)
+		fx.AddAlloc(st, Shl(s.Len, BV64(1)))
 		k(st, StrV{C: CHex{Src: fx.sliceContent(st, s), SOff: s.Off}, Off: BV64(0), Len: Shl(s.Len, BV64(1))})
 	}
 	in["encoding/hex.DecodeString"] = func(fx *FnExec, fr *Frame, call *ssa.CallCommon, args []Value, st *State, site string, k func(*State, Value)) {
@@ -318,9 +348,17 @@ func (fx *FnExec) bufAppend(st *State, p *PtrV, src Content, soff, n *Term) {
 			e[i] = BVC(8, 0)
 		}
 		base = CVec{E: e, W: 8}
-	}
-	if buf.Obj != nil {
-		base = CopyC(base, BV64(0), fx.sliceContent(st, buf), buf.Off, buf.Len)
+		if buf.Obj != nil {
+			base = CopyC(base, BV64(0), fx.sliceContent(st, buf), buf.Off, buf.Len)
+		}
+	} else if buf.Obj != nil {
+		if buf.Off.IsConst() && buf.Off.Val == 0 {
+			// octets beyond Len of the old content are never read through the new slice (Len bounds all reads
+			// before they are overwritten), so the old content can be extended in place
+			base = fx.sliceContent(st, buf)
+		} else {
+			base = CopyC(base, BV64(0), fx.sliceContent(st, buf), buf.Off, buf.Len)
+		}
 	}
 	base = CopyC(base, buf.Len, src, soff, n)
 	o := fx.Cx.NewObj("bytes.Buffer.buf", types.NewSlice(types.Typ[types.Uint8]), ProvFresh)
